@@ -93,6 +93,10 @@ pub fn gen_library(seed: u64, n: usize) -> BTreeMap<String, String> {
     lib.insert("cyc1".to_string(), "# Cycle one\n\n[zero](cyc0)\n\n## Inner\n\ntext\n".to_string());
     lib.insert("cycroot0".to_string(), "# Root zero\n\n[zero](cyc0)\n".to_string());
     lib.insert("d1/cycroot1".to_string(), "# Root one\n\n[one](../cyc1)\n".to_string());
+    // a note included twice by one note, under two sub-headings of one heading: both routes are paths of it,
+    // whichever reference the index happens to hand out first
+    lib.insert("diamond".to_string(), "# Diamond index\n\n## Alpha side\n\n[s](diamondleaf)\n\n## Beta side\n\n[s](diamondleaf)\n".to_string());
+    lib.insert("diamondleaf".to_string(), "# Diamond leaf\n\n## Leaf part\n\ntext\n".to_string());
     // a note that links to itself (its own links count for its rank) and a chain with an empty heading in it
     // (symbol names are the heading texts of the chain, empty ones included)
     lib.insert("selfref".to_string(), "# Self linker\n\ntext [me](selfref) and [me too](selfref)\n".to_string());
@@ -230,6 +234,10 @@ pub fn cmd_dump(args: &[String]) -> i32 {
     d["full"]["lsp_references"] = refs;
     // the outline the server lists for every note (textDocument/documentSymbol): names and lines, in the order given
     let syms = lsp_document_symbols(&lib);
+    // the link completions offered in the first note (labels tie for notes with equal titles)
+    let comp = lsp_completion(&lib);
+    d["digests"]["lsp_completion"] = json!(digest(&comp));
+    d["full"]["lsp_completion"] = comp;
     // (recorded under one name whichever way the server got to its state: the judge compares all observations)
     let resent = lsp_document_symbols_after_resend(&lib);
     d["resend_changes_symbols"] = json!(resent != syms);
@@ -237,6 +245,29 @@ pub fn cmd_dump(args: &[String]) -> i32 {
     d["full"]["lsp_document_symbols"] = syms;
     std::fs::write(&args[5], serde_json::to_string(&d).unwrap()).unwrap();
     0
+}
+
+fn lsp_completion(lib: &BTreeMap<String, String>) -> Value {
+    use iwes::router::server::Server;
+    use iwes::router::{LspClient, ServerConfig};
+    use lsp_types::{CompletionParams, PartialResultParams, Position, TextDocumentIdentifier, TextDocumentPositionParams, Url, WorkDoneProgressParams};
+    let state: HashMap<String, String> = lib.iter().map(|(k, v)| (k.clone(), v.clone())).collect();
+    let server = Server::new(ServerConfig {
+        base_path: "/basepath".to_string(),
+        state,
+        sequential_ids: None,
+        configuration: Default::default(),
+        lsp_client: LspClient::Unknown,
+    });
+    let Some(first) = lib.keys().next() else { return json!([]) };
+    let uri = Url::parse(&format!("file:///basepath/{}.md", first)).unwrap();
+    let items = server.handle_link_completion(CompletionParams {
+        text_document_position: TextDocumentPositionParams { text_document: TextDocumentIdentifier { uri }, position: Position::new(0, 0) },
+        work_done_progress_params: WorkDoneProgressParams::default(),
+        partial_result_params: PartialResultParams::default(),
+        context: None,
+    });
+    json!(items.iter().map(|i| format!("{}|{}", i.label, i.insert_text.clone().unwrap_or_default())).collect::<Vec<_>>())
 }
 
 fn lsp_document_symbols(lib: &BTreeMap<String, String>) -> Value {
